@@ -300,6 +300,17 @@ def tensor_src(var, arr, names, doms, dtype="real"):
     return "%s = Tensor(%s, %s, %r)" % (var, arr_src(arr), inputs_src(names, doms), dtype)
 
 
+def point_src(p):
+    """keyword arguments binding one point: integers as ints, reals as Tensors."""
+    parts = []
+    for k, v in p.items():
+        if isinstance(v, np.ndarray) or isinstance(v, float):
+            parts.append("%s=Tensor(%s)" % (k, arr_src(np.asarray(v, dtype=np.float64))))
+        else:
+            parts.append("%s=%d" % (k, int(v)))
+    return ", ".join(parts)
+
+
 def snippet(body, expected=""):
     s = HEADER + body.rstrip() + "\n"
     if expected:
@@ -787,7 +798,8 @@ def check_al(case, seed):
         if not observe.values_equal(have, want, "real" if out_real else 0, 1e-6 if cls == "Gaussian" else observe.RTOL):
             pp = {k: (v.tolist() if isinstance(v, np.ndarray) else v) for k, v in p.items()}
             return _viol(case, site, "value", "after align(%r) (source inputs %s, result %s %s) at %s: expected %s, got %s"
-                         % (names, src_order, rcls, got, pp, np.asarray(want).tolist(), np.asarray(have).tolist()), body, feats)
+                         % (names, src_order, rcls, got, pp, np.asarray(want).tolist(), np.asarray(have).tolist()),
+                         body + "print(r(%s), 'before align:', x(%s))\n" % (point_src(p), point_src(p)), feats)
     moved = got != src_order
     return core.ok(key, moved and len(pts) >= 2, "al:%s->%s:%s:%s" % (cls, rcls, oclass, "moved" if moved else "same"),
                    transitions=ntrans, counters={"al_points": len(pts), "al_order_" + oclass: 1})
